@@ -582,29 +582,33 @@ def r6_relurl_plain_text(ctx, rep):
     if len(rel) != 1 or not isinstance(rel[0].args[0], ast.Name):
         raise AnalysisError("relative_url: the os.path.relpath(<var>, ...) call was not found")
     var = rel[0].args[0].id
-    assigns = [n for n in ast.walk(fn) if isinstance(n, ast.Assign)
-               and any(isinstance(t, ast.Name) and t.id == var for t in n.targets)]
+    ev = astq.trace(fn)
+    assigns = [e for e in ev if e.kind == "assign" and e.target == var and e.value is not None
+               and not (isinstance(e.value, ast.Constant) and e.value.value is None)]
     if not assigns:
         raise AnalysisError(f"relative_url: no assignment to {var}")
-    for a in assigns:
-        # the conjunction of tests under which this assignment executes
-        conds: List[str] = []
-        n = a
-        while n in parents:
-            p = parents[n]
-            if isinstance(p, ast.If):
-                t = ast.unparse(p.test)
-                conds.append(t if n in p.body else f"not ({t})")
-            n = p
-        link = any(re.fullmatch(r"\w+ is not None", c) for c in conds)
-        isabs = any(c.startswith(("os.path.isabs(", "pathlib.Path(")) and "is_absolute" in c or c.startswith("os.path.isabs(")
-                    for c in conds)
-        src = ast.unparse(a.value)
-        ok = link or isabs
+    # the element found by the HTML search: what `.find("a", ...)` is bound to
+    link_vars = {e.target for e in ev if e.kind == "assign" and e.value is not None and
+                 any(isinstance(c, ast.Call) and isinstance(c.func, ast.Attribute) and c.func.attr in ("find", "select_one", "a")
+                     for c in ast.walk(e.value))}
+
+    def atom(x):
+        if isinstance(x, ast.Compare) and len(x.ops) == 1 and isinstance(x.ops[0], (ast.Is, ast.IsNot)) and \
+                isinstance(x.comparators[0], ast.Constant) and x.comparators[0].value is None and ast.unparse(x.left) in link_vars:
+            return ("link", isinstance(x.ops[0], ast.IsNot))
+        if isinstance(x, ast.Name) and x.id in link_vars:
+            return ("link", True)
+        if isinstance(x, ast.Call) and (call_name(x) == "os.path.isabs" or (isinstance(x.func, ast.Attribute) and x.func.attr == "is_absolute")):
+            return ("abs", True)
+        return None
+    for e in assigns:
+        ok = astq.path_implies(e, atom, {"link": True}) is True or astq.path_implies(e, atom, {"abs": True}) is True
+        conds = e.cond_texts()
+        src = ast.unparse(e.value)
         rep.ob(f"relative_url: `{var} = {src}` only for a link or an absolute path", ok,
                f"guarded by {conds}" if ok else
                f"a string without an <a> element is rewritten as a path although it need not be one (guards: {conds}): "
-               f"`real, dimension(n/2)` is displayed with a mangled bound", py.nloc(a))
+               f"`real, dimension(n/2)` is displayed with a mangled bound", py.nloc(e.node))
 
 
 
